@@ -235,7 +235,10 @@ static void footprint_case(long w) {
     /* oracle 2: no growth from one repetition to the next */
     if (r >= 2) {
       if (s[r].mapped_total > s[r - 1].mapped_total) { VIOL("mapped-grows", "mapped memory grows from repetition %d to %d: %zu -> %zu bytes", r - 1, r, s[r - 1].mapped_total, s[r].mapped_total); return; }
-      if (s[r].total_resident > s[r - 1].total_resident + 64 * KiB) { VIOL("resident-grows", "resident memory grows from repetition %d to %d: %zu -> %zu bytes", r - 1, r, s[r - 1].total_resident, s[r].total_resident); return; }
+      /* with purging disabled by option nothing is ever given back, so residency only reflects which of the already mapped
+         pages a repetition happens to touch (randomised free lists in secure builds touch different ones): only mapped
+         memory is compared then */
+      if (purge_delay >= 0 && s[r].total_resident > s[r - 1].total_resident + 64 * KiB) { VIOL("resident-grows", "resident memory grows from repetition %d to %d: %zu -> %zu bytes", r - 1, r, s[r - 1].total_resident, s[r].total_resident); return; }
     }
   }
   if (s[NREP].mapped_total == s[NREP - 1].mapped_total) VF_INC(nontrivial);
